@@ -102,4 +102,9 @@ TEXT = {
         "note": _NOTE + "math/big.Float modelled, not verified; the general half-ulp rounding bound is an oracle check, not yet a theorem (labelled partial).",
         "technique": "Coq proof over a Gallina model of cty.Value operations + bit-exact model/implementation correspondence by vm_compute",
     },
+    "C20": {
+        "level": "The mutable helper sets (cty/set Add / Remove / Copy / Has) are modelled over Go slice semantics: buckets are slices into a heap of arrays and append writes in place while capacity lasts. Theorems over all histories of operations on any number of sets: in every reachable state no two buckets share an array, and therefore an Add or Remove on one set never changes what another set reports and a Copy changes no existing set; the same statement is refuted by a kernel-computed history for the shallow Copy the code had before the repair. Set histories are run on the real generic set and compared with the model bucket by bucket; value histories with accessor and constructor aliasing are checked by deterministic deep fingerprints of every live value after each step; repeated calls are compared for purity; shared values are used from 2..16 goroutines under the Go race detector and compared with sequential use.",
+        "note": _NOTE + "data-race freedom is decided by the race detector on the schedules run, not by proof (partial); one fix: commit (set.Copy).",
+        "technique": "Coq proof of an isolation invariant over all histories of a heap/slice model of cty/set + correspondence by vm_compute + fingerprint histories + Go race detector runs",
+    },
 }
